@@ -28,6 +28,9 @@ def run(ctx):
         "ToyHasher (64-bit) stands for 'all hashers' in the runs: the code is generic in H; the falsifier's oracle treats a ToyHasher "
         "collision (probability 2^-64 per comparison) and a degenerate challenge (probability <= N*|D|/|F|) as impossible",
     ]
+    # the pure integer parts of fri/src are re-translated on every run (coq/Gen/FriInt.v); Proofs/FriGen.v proves that
+    # the hand model computes those terms, so a change of that arithmetic in the source breaks the Coq build
+    ctx.rs2v(["FriInt"])
     ctx.audit_sources()
     ctx.coq_build("C05")
     if not quick:
